@@ -4,6 +4,7 @@ all 20 checks; print every check that is not silent (exit 1 = false violation, e
 import glob, os, shutil, subprocess, sys, tempfile
 from concurrent.futures import ThreadPoolExecutor
 ROOT = '/verif'
+SNAP = ROOT
 PIDS = [f'C{i:02d}' for i in range(1, 21)]
 
 
@@ -16,7 +17,7 @@ def run(diff):
         if r.returncode != 0:
             return diff, [('patch', 'FAILED', (r.stdout + r.stderr)[-200:])]
         for pid in PIDS:
-            r = subprocess.run([os.path.join(ROOT, 'vcheck'), pid], capture_output=True, text=True, env=dict(os.environ, GSCAN_REPO=d, GSCAN_OUT=d))
+            r = subprocess.run([os.path.join(SNAP, 'vcheck'), pid], capture_output=True, text=True, env=dict(os.environ, GSCAN_REPO=d, GSCAN_OUT=d))
             if r.returncode != 0:
                 lines = [ln for ln in r.stdout.splitlines() if '[R' in ln or 'ANALYSIS-ERROR' in ln]
                 out.append((pid, r.returncode, ' || '.join(x.strip()[:230] for x in lines[:4])))
@@ -26,6 +27,12 @@ def run(diff):
 
 
 if __name__ == '__main__':
+    # the checks run from a private snapshot of the machinery, so that editing /verif during a run does not mix versions
+    SNAP = tempfile.mkdtemp(prefix='benign_snap_')
+    shutil.copytree(os.path.join(ROOT, 'gscan'), os.path.join(SNAP, 'gscan'), ignore=shutil.ignore_patterns('__pycache__'))
+    for fn in ('vcheck', 'known_findings.json', 'properties.jsonl'):
+        if os.path.exists(os.path.join(ROOT, fn)):
+            shutil.copy(os.path.join(ROOT, fn), SNAP)
     diffs = sorted(x for a in sys.argv[1:] for x in glob.glob(os.path.join(a, 'R*.diff')))
     with ThreadPoolExecutor(max_workers=14) as ex:
         res = list(ex.map(run, diffs))
@@ -37,3 +44,4 @@ if __name__ == '__main__':
             for o in out:
                 print('   ', *o)
     print(f'{len(diffs)} changes, {bad} with a non-silent check')
+    shutil.rmtree(SNAP, ignore_errors=True)
